@@ -20,7 +20,7 @@ Fixpoint raw_eqb (a b : raw) {struct a} : bool :=
                            | (k, p) :: l', (k', q) :: m' => String.eqb k k' && raw_eqb p q && go l' m' | _, _ => false end) x y
   | RCmd x, RCmd y => String.eqb x y
   | RType x, RType y => String.eqb x y
-  | RData, RData | RNone, RNone => true
+  | RData, RData | RNone, RNone | RTuple0, RTuple0 => true
   | _, _ => false
   end.
 Definition perr_eqb (a b : perr) : bool :=
